@@ -264,7 +264,13 @@ class FeArray(np.ndarray):
                 )
 
         if elementwise:
-            inputs = FeArray._align(inputs)
+            where = kwargs.get("where") if kwargs else None
+            if isinstance(where, FeArray):
+                # a field given as the mask is lined up with the operands like any of them
+                *inputs, where = FeArray._align((*inputs, where))
+                kwargs = {**kwargs, "where": where}
+            else:
+                inputs = FeArray._align(inputs)
 
         # ndarray refuses to run a ufunc on a subclass that overrides __array_ufunc__, so hand
         # it plain views -- of the `out` and `where` operands too, or the call comes straight
